@@ -121,3 +121,4 @@ def check(ctx):
         witness.run_witness(ctx, "c05_mutex", ctx.prog.extract_info["target"])
     shared.mutex_cancel_arm_rules(ctx)
     ctx.import_rules("C02", r"^(sync-blocker|blocker|fast-blocker|thread-park)/")
+    ctx.import_rules("C03", r"^mpsc/block-start/|^mpsc/none-only-if-empty")
